@@ -547,7 +547,12 @@ def run(tier, seed):
         else:
             gen, kinds = sessions_for(tier, chk.rng)
             corpus = S.load_corpus(vlib.ROOT, "C07")
-            Ss = corpus + gen
+            # "every finished message passes the library's own validation": requests built and finished by the library for every
+            # compatibility x usage-flag combination, validated by an identically configured agent (generator and oracle shared with C04)
+            from checks import C04 as V
+            lib = [V.s_libbuilt(chk.rng) for _ in range(500 if tier == "quick" else 6000)] + \
+                  [V.s_libbuilt(chk.rng, compat, flags) for compat in range(4) for flags in range(0, 512, 2 if tier == "quick" else 1)]
+            Ss = corpus + gen + lib
             outs, errs = vlib.run_impl(exe, Ss)
             rets, opk = {}, {}
             distinct = set()
@@ -557,7 +562,10 @@ def run(tier, seed):
                     ofail.append({"session": s, "why": "implementation crashed / aborted (sanitizer report?)",
                                   "stderr": errs.get(i, ("", 0, ""))[2][-1500:]})
                     continue
-                why = oracle(s, o) or reply_oracle(s, o)
+                if i >= len(corpus) + len(gen):
+                    why = V.finish_validate_oracle(s, o)        # library-built request sessions (C04's line grammar)
+                else:
+                    why = oracle(s, o) or reply_oracle(s, o)
                 if why:
                     ofail.append({"session": s, "impl_out": [x[:300] for x in o], "why": why})
                 for line, x in zip(s, o):
